@@ -464,11 +464,18 @@ func genC08(rng *hx.Rng, tier string, w *hx.Writer) error {
 			p.commits, p.share = c2, refEval(c2, p.idx, BnQ)
 			p.sid = sidDesc{dealer: dl.dealer, members: members, commits: c2, t: t}
 		}, "approve", "crafted-polynomial-true-share")
-		mk(func(p *plainDesc) {
-			c2 := craftFor(randCoeffs(rng, t, BnQ), p.idx, BnQ)
-			p.commits, p.share = c2, big.NewInt(0)
-			p.sid = sidDesc{dealer: dl.dealer, members: members, commits: c2, t: t}
-		}, "no-approve", "crafted-polynomial-zero-share")
+		{
+			// (the generator's coefficients include 0: a crafted polynomial may really take the value 0)
+			c2 := craftFor(randCoeffs(rng, t, BnQ), r, BnQ)
+			want0 := "no-approve"
+			if refEval(c2, r, BnQ).Sign() == 0 {
+				want0 = "approve"
+			}
+			mk(func(p *plainDesc) {
+				p.commits, p.share = c2, big.NewInt(0)
+				p.sid = sidDesc{dealer: dl.dealer, members: members, commits: c2, t: t}
+			}, want0, "crafted-polynomial-zero-share")
+		}
 		mk(func(p *plainDesc) { p.idx = (r + 1) % n; p.share = refEval(dl.coeffs, p.idx, BnQ) }, "reject", "index-of-other-member")
 		mk(func(p *plainDesc) { p.idx = n + 3 }, "reject", "index-out-of-range")
 		if r != 0 {
